@@ -111,18 +111,19 @@ struct ExpHarness : HarnessBase {
 	const char *prop() const { return "C17"; }
 	X &s(int a) { return *reinterpret_cast<X *>(store[a]); }
 	void reset() { world_reset(); for(int a = 0; a < 2; a++) { memset(store[a], 0, sizeof(X)); new(store[a]) X(); alive[a] = true; ref[a] = M{}; } }
-	enum { C_DEFAULT, C_SUCCESS, C_ERR, C_VAL, C_COPY, C_MOVE, A_COPY, A_MOVE, A_ERR, A_VAL, UNWRAP, MAP, MAP_ERR };
+	enum { C_DEFAULT, C_SUCCESS, C_ERR, C_VAL, C_COPY, C_MOVE, A_COPY, A_MOVE, A_ERR, A_VAL, UNWRAP, MAP, MAP_ERR, A_SELF_COPY, A_ALIAS_COPY };
 	void ops(std::vector<uint32_t> &out) {
 		for(uint32_t a = 0; a < 2; a++) {
 			out.push_back(mk(C_DEFAULT, a)); out.push_back(mk(C_SUCCESS, a));
 			for(uint32_t v = 1; v <= 2; v++) { out.push_back(mk(C_ERR, a, v)); out.push_back(mk(C_VAL, a, v)); out.push_back(mk(A_ERR, a, v)); out.push_back(mk(A_VAL, a, v)); }
 			out.push_back(mk(C_COPY, a)); out.push_back(mk(C_MOVE, a)); out.push_back(mk(A_COPY, a)); out.push_back(mk(A_MOVE, a));
+			out.push_back(mk(A_SELF_COPY, a)); out.push_back(mk(A_ALIAS_COPY, a));
 			if(!ref[a].err) out.push_back(mk(UNWRAP, a));
 			out.push_back(mk(MAP, a)); out.push_back(mk(MAP_ERR, a));
 		}
 	}
 	std::string show_class(uint32_t op) {
-		static const char *nm[] = {"ctor()", "ctor(success)", "ctor(E)", "ctor(T)", "copy_construct", "move_construct", "copy_assign", "move_assign", "assign(E)", "assign(T)", "unwrap", "map", "map_error"};
+		static const char *nm[] = {"ctor()", "ctor(success)", "ctor(E)", "ctor(T)", "copy_construct", "move_construct", "copy_assign", "move_assign", "assign(E)", "assign(T)", "unwrap", "map", "map_error", "self_copy_assign", "copy_assign_through_alias"};
 		return std::string(name) + "." + nm[op & 0xff];
 	}
 	std::string show(uint32_t op) { return show_class(op) + "(slot" + std::to_string((op >> 8) & 0xf) + ",v=" + std::to_string(op >> 12) + ")"; }
@@ -139,6 +140,8 @@ struct ExpHarness : HarnessBase {
 		case C_MOVE: renew(a); new(store[a]) X(std::move(s(b))); alive[a] = true; ref[a] = ref[b]; moved(b); break;
 		case A_COPY: { X &r = (s(a) = static_cast<const X &>(s(b))); if(&r != &s(a)) throw Violation{"C17", show_class(op) + ":result", "copy assignment does not return *this"}; ref[a] = ref[b]; break; }
 		case A_MOVE: { X &r = (s(a) = std::move(s(b))); if(&r != &s(a)) throw Violation{"C17", show_class(op) + ":result", "move assignment does not return *this"}; ref[a] = ref[b]; moved(b); break; }
+		case A_SELF_COPY: { const X &x = s(a); s(a) = x; break; }                 // value and state must be unchanged
+		case A_ALIAS_COPY: { X *p = &s(a); const X *q = p; *p = *q; break; }
 		case A_ERR: s(a) = X(Err(v)); ref[a] = {v, 0}; break;
 		case A_VAL: s(a) = X(E(v)); ref[a] = {0, v}; break;
 		case UNWRAP: { E e = s(a).unwrap(); if(val(e) != ref[a].v) throw Violation{"C17", show_class(op) + ":value", "unwrap() returned the wrong value"}; moved(a); break; }
